@@ -162,6 +162,9 @@ ContractSat == Patched => AllowedDiff(a, r, {}, IF Eq(a, r) THEN <<>> ELSE d)
 
 EmptyIsIdentity == (Patched /\ d = <<>>) => Eq(a, r)
 
+\* state constraint of the "universe only" runs: the documents are enumerated (and printed), no diff is chosen
+DocsOnly == phase # "doc"
+
 \* printing (spec -> code replay, universe for pair enumeration)
 Emit == EMIT =>
           IF phase = "doc" THEN PrintT("DOC " \o ToJson(a))
